@@ -147,6 +147,8 @@ def run_jobs(scen_name, jobs, scratch, default_budget):
                         except ValueError:
                             recs.append({'kind': 'crash', 'status': -3, 'exc': 'bad record'})
             os.unlink(rec_path)
+        if os.path.exists(rec_path + '.fail'):
+            os.unlink(rec_path + '.fail')
         if status != 0:
             recs.append({'kind': 'crash', 'status': status, 'exc': 'job process status'})
         results[idx] = {'recs': recs, 'wall': time.time() - t0}
@@ -279,6 +281,7 @@ def _main(prop, tier, seed, scen_name, scratch, t0, only):
     n_paths = n_trans = n_obl = n_dis = n_unknown = n_crash = n_abort = 0
     n_harness = n_vacuous = n_nontrivial = 0
     n_budget = 0
+    n_wit_unrep = 0
     nq = 0
     tq = 0.0
     maxq = 0.0
@@ -338,7 +341,10 @@ def _main(prop, tier, seed, scen_name, scratch, t0, only):
                 elif ob['verdict'] == 'sat':
                     viol.setdefault(ob['key'], []).append((ji, rec, ob))
             if rec['outcome'] == 'ok' and rec.get('model') is not None and not is_canary:
-                witnesses.append((ji, rec))
+                if rec['model'].get('_unrepresentable'):
+                    n_wit_unrep += 1
+                else:
+                    witnesses.append((ji, rec))
             if len(samples) < 6 and rec['outcome'] == 'ok' and rec['obls'] and not is_canary \
                     and (rec['decisions'] > 0 or len(samples) < 2):
                 samples.append({'job': job['fn'], 'cfg': job['cfg'],
@@ -550,7 +556,7 @@ def _main(prop, tier, seed, scen_name, scratch, t0, only):
                        'total_query_s': round(tq, 3), 'max_query_s': round(maxq, 3),
                        'feasibility_unknown_explored_both': unknown_feas},
             'paths_aborted': n_abort, 'path_notes': notes,
-            'witnesses_skipped_unrepresentable': n_wit_skipped,
+            'witnesses_skipped_unrepresentable': n_wit_skipped + n_wit_unrep,
             'witnesses_diverged_on_nondeterministic_stub': n_wit_diverged,
             'canary': {'jobs': len(canary_jobs), 'alive': canary_alive},
             'known_findings_hit': [{'key': k, 'occurrences': v[1], 'matched': v[2]}
